@@ -396,18 +396,20 @@ def classify_unfaithful(op, r):
 
 # ------------------------------------------------------------------ executed layer
 
-EXEC_ZOO = {  # name -> has a stack check (morestack path exists)
-    'S1': False, 'SetX': False, 'CmpX': False, 'S2': True, 'S3': True, 'Leaf': False, 'Load': False, 'Big': True, 'Printer': True,
-    'G': False, 'Fib': True, 'Sq': False, 'Deep': True, 'Mixed': True, 'Tiny': False,
-    'TwinLeafG': False, 'TripleLeafGLoad': False, 'TwinS2S3': True, 'TwinSqCube': False, 'TwinDblSq': True,
-    'RemockSq': False, 'RemockDbl': True, 'RemockSameBuilderCube': False}
+EXEC_ZOO = [  # what is mocked; whether the prologue has a stack check is read from the code by the probe (stack=...)
+    'S1', 'SetX', 'CmpX', 'S2', 'S3', 'Leaf', 'Load', 'Big', 'Big2', 'Printer', 'G', 'Fib', 'Sq', 'Deep', 'Mixed', 'Tiny', 'Mul4',
+    'TwinLeafG', 'TripleLeafGLoad', 'TwinS2S3', 'TwinSqCube', 'TwinDblSq', 'RemockSq', 'RemockDbl', 'RemockSameBuilderCube',
+    'Generic', 'Method', 'MethodTwinTypes', 'RemockRefused']
+EXEC_RECURSIVE = {'Fib', 'Deep'}
 
 
 def build_exec():
     ex = os.path.join(C.HARNESS, 'c03', 'exec')
     extra = dict(C.helper_pkgs())
-    extra['internal/zzverif/c03exec'] = {'exec_test.go': os.path.join(ex, 'exec_test.go')}
-    b, err = C.overlay_build('c03-exec', 'internal/zzverif/c03exec', {}, extra)
+    extra['internal/zzverif/c03exec'] = {'exec_test.go': os.path.join(ex, 'exec_test.go'), 'gen118_test.go': os.path.join(ex, 'gen118_test.go')}
+    extra['internal/zzverif/c03exec/a'] = {'repo.go': os.path.join(ex, 'a', 'repo.go')}
+    extra['internal/zzverif/c03exec/b'] = {'repo.go': os.path.join(ex, 'b', 'repo.go')}
+    b, err = C.overlay_build('c03-exec', 'internal/zzverif/c03exec', {}, extra, ldflags='-s=false')   # by-name lookup needs the symbol table
     if b is None:
         raise C.Infra(f'executed-layer probe does not build against the current tree:\n{err[-3000:]}')
     return b
@@ -428,16 +430,28 @@ def exec_oracle(name, obs):
     if obs is None:
         return 'no observation', None
     if obs.startswith('refused:'):
-        return (None if obs.endswith('clean=true') else ('apply failed but the function no longer behaves as before', None))
+        if obs.split(' retried-after')[0].endswith('clean=true'):
+            return None
+        if name == 'RemockRefused':
+            return ('a second mock of a still-mocked function was refused (placeholder too small) but the function no longer behaves as '
+                    'before the failed apply: the earlier mock is gone', 'F29-failed-remock-unpatches')
+        return 'apply failed but the function no longer behaves as before / its entry bytes changed', None
     if not obs.startswith('applied'):
         return f'calling the origin placeholder: {obs}', None
     kv = dict(p.split('=', 1) for p in obs.split()[1:] if '=' in p)
+    if name == 'Generic' and kv['wrong'] == kv['calls'] and kv['cbzero'] == '0':
+        return ('origin placeholder of a generic function: the callback and the placeholder are entered with the dictionary argument of the '
+                f'shape function in place of the first argument: {obs}', 'F30-generic-origin-abi')
     if kv['wrong'] != '0' or kv['cbzero'] != '0' or kv['restored'] != 'true':
         return f'wrong result / callback not run / not restored: {obs}', None
     if kv['cbtwice'] != '0':
-        if EXEC_ZOO.get(name):
-            return f'callback ran twice for one call at {kv["cbtwice"]} of {kv["calls"]} stack depths (first at depth {kv["first"]}): {obs}', 'F4-morestack-reentry'
-        return f'callback ran more than once: {obs}', None
+        # known finding F4 is exactly: the prologue has a stack check, results are right, and a call re-enters the mock at most once
+        # per mocked call, at the few depths where the stack has to grow at the placeholder call.  Anything beyond that is reported.
+        calls, twice, over = int(kv['calls']), int(kv['cbtwice']), int(kv.get('over', '1'))
+        few = name in EXEC_RECURSIVE or twice <= max(3, calls // 4)
+        if kv.get('stack') == 'true' and over <= 1 + (name in EXEC_RECURSIVE) * 1000 and few:
+            return f'callback ran twice for one call at {twice} of {calls} stack depths (first at depth {kv["first"]}): {obs}', 'F4-morestack-reentry'
+        return f'callback ran more often than once per call beyond the stack-growth re-entry (stack={kv.get("stack")} over={over} at {twice}/{calls} depths): {obs}', None
     return None
 
 
@@ -567,6 +581,10 @@ def run(tier):
             out.violation(f'executed layer, {name}: {why}', {'kind': 'exec', 'exec': [name, maxd, step], 'observed': obs,
                                                             'how': 'python3 check.py C03 --replay <this file>'}, key=key)
     stats['exec'] = {n: o for n, o in xres}
+    napplied = sum(1 for _, o in xres if o and o.startswith('applied'))
+    stats['exec_applied'] = napplied
+    if napplied * 10 < len(xres) * 6:
+        raise C.Infra(f'executed layer: only {napplied} of {len(xres)} zoo functions could be mocked with an origin placeholder (floor 60%)')
     stats['evaluations'] += sum(int(dict(p.split('=', 1) for p in o.split()[1:] if '=' in p).get('calls', 1)) if o and o.startswith('applied') else 1 for _, o in xres)
     # 2. correspondence / proofs
     if not bad and not jbad:
